@@ -7,7 +7,13 @@ from tempest import Sampler
 
 
 def pt(u):
-    return 8.0 * u - 4.0 + 0.25 * np.sin(7 * u)
+    """a prior transform written the usual per-point way (one parameter at a time by index assignment): it maps ONE point of the
+    unit cube; handing it a whole batch would silently transform rows instead of coordinates"""
+    u = np.asarray(u, dtype=float)
+    x = np.array(u, dtype=float)
+    x[0] = 8.0 * u[0] - 4.0 + 0.25 * np.sin(7 * u[0])
+    x[1] = 8.0 * u[1] - 4.0 + 0.25 * np.sin(7 * u[1])
+    return x
 
 
 def ll_scalar(x):
@@ -54,7 +60,16 @@ def run_one(cfg):
               clustering=cfg["clustering"], periodic=cfg["periodic"], reflective=cfg["reflective"],
               volume_variation=cfg["vv"], ess_ratio=1.5)
     blobs = cfg["like"] == "blob"
-    if blobs:
+    if cfg.get("pool") == "executor":
+        # a pool object with both .map and .submit whose tasks finish out of order (latency depends on the position)
+        import concurrent.futures, time
+
+        def slow_ll(x):
+            time.sleep(0.0005 + 0.002 * float(abs(np.sin(37.0 * x[0]))))
+            return ll_blob(x) if blobs else ll_scalar(x)
+        kw["pool"] = concurrent.futures.ThreadPoolExecutor(4)
+        s = Sampler(pt, slow_ll, blobs_dtype="float", **kw) if blobs else Sampler(pt, slow_ll, **kw)
+    elif blobs:
         s = Sampler(pt, ll_blob, blobs_dtype="float", **kw)
     elif cfg["like"] == "vec":
         s = Sampler(pt, ll_vec, vectorize=True, **kw)
@@ -104,6 +119,8 @@ def main():
         cfgs.append(dict(kernel=kernel, resample=resample, clustering=clustering, like=like, periodic=bc[0], reflective=bc[1], vv=vv, seed=3))
     # pairwise-ish thinning: every 5th configuration plus all blob x boundary x kernel combinations
     pick = [c for i, c in enumerate(cfgs) if i % 5 == 0 or (c["like"] == "blob" and c["vv"] is None and c["resample"] == "mult")]
+    pick = [dict(kernel="rwm", resample="syst", clustering=False, like="scalar", periodic=None, reflective=None, vv=None, seed=3, pool="executor"),
+            dict(kernel="tpcn", resample="mult", clustering=True, like="blob", periodic=None, reflective=None, vv=None, seed=3, pool="executor")] + pick
     tried = 0
     for c in pick:
         tried += 1
